@@ -10113,8 +10113,11 @@ func (l *Lowerer) resolveType(typ parser.Type) (ir.TypeHandle, error) {
 		// Parse size expression if present
 		var size ir.ArraySize
 		if t.Size != nil {
-			if n, ok := l.tryEvalConstantUint(t.Size); ok {
-				if n == 0 {
+			// Evaluate as a signed value: WGSL requires the element count to be
+			// greater than zero, so negative counts are errors too (converting
+			// to unsigned first would turn -1 into a huge positive count).
+			if _, n, err := l.evalConstantIntExpr(t.Size); err == nil {
+				if n <= 0 {
 					return 0, fmt.Errorf("array size must be greater than 0")
 				}
 				constSize := uint32(n)
